@@ -248,16 +248,16 @@ func (f *File) linkMessage(o *Obj, d []byte, depth int) {
 // ---------------------------------------------------------------- fractal heap (III.G) and B-tree v2 (III.A.2)
 
 type fheap struct {
-	ok                                 bool
-	idLen, maxHeapBits, heapOffBytes   int
-	startBlock, maxDirect              int
-	width                              int
-	rootAddr                           uint64
-	rootRows                           int
-	flags                              int
-	ioFilterLen                        int
-	blockLenBytes                      int
-	dirHdr                             int // size of a direct block's header
+	ok                               bool
+	idLen, maxHeapBits, heapOffBytes int
+	startBlock, maxDirect            int
+	width                            int
+	rootAddr                         uint64
+	rootRows                         int
+	flags                            int
+	ioFilterLen                      int
+	blockLenBytes                    int
+	dirHdr                           int // size of a direct block's header
 }
 
 func (f *File) fractalHeap(addr uint64, owner string, record bool) fheap {
